@@ -92,6 +92,8 @@ type c14obs struct {
 	End    string // eof | error | none
 	ErrTxt string
 	Reply  string
+	Rows2  [][]any // second COPY on the same connection (after an aborted first one)
+	End2   string
 }
 
 func (ch c14) runStream(c *core.Ctx, env *hs.Env, t c14table, stream []byte, cuts []int, empties bool, cs any) (obs c14obs, ok bool) {
@@ -131,6 +133,14 @@ func (ch c14) runStreamF(c *core.Ctx, env *hs.Env, t c14table, stream []byte, cu
 		in = append(in, pg.CopyDone()...)
 	}
 	in = append(in, pg.Sync()...) // resynchronisation point; ignored if still in COPY mode, otherwise yields Z
+	if abort && len(cuts) == 0 {
+		// after the aborted COPY, a complete one on the same connection
+		full, _ := t.encode()
+		in = append(in, pg.Query("copy")...)
+		in = append(in, pg.CopyData(full)...)
+		in = append(in, pg.CopyDone()...)
+		in = append(in, pg.Sync()...)
+	}
 	out, closed := cl.Step(in)
 	if hangCheck(c, cl, cs) {
 		return obs, false
@@ -148,6 +158,18 @@ func (ch c14) runStreamF(c *core.Ctx, env *hs.Env, t c14table, stream []byte, cu
 	for _, e := range cl.C.Events() {
 		if e.Kind == "cb" && e.Name == "copyread" {
 			r := e.Data.(hs.CopyRec)
+			if obs.End != "none" {
+				// observations of the second COPY on the same connection
+				switch {
+				case r.ErrNil:
+					obs.Rows2 = append(obs.Rows2, r.Row)
+				case r.EOF:
+					obs.End2 = "eof"
+				default:
+					obs.End2 = "error: " + r.Err
+				}
+				continue
+			}
 			switch {
 			case r.ErrNil:
 				obs.Rows = append(obs.Rows, r.Row)
@@ -432,10 +454,21 @@ func (ch c14) corrupt(c *core.Ctx, env *hs.Env, t c14table, stream []byte, rowEn
 		if !ch.checkRows(c, t, obs, ri, "error", "CopyFail after part of the stream", cs) {
 			return
 		}
-		if obs.Reply != "TGEZZ" {
-			c.Violate("abort-reply", "aborted binary COPY transcript "+obs.Reply, "want TGEZZ (one ErrorResponse, one ReadyForQuery, then the Sync's)", cs)
+		if obs.Reply != "TGEZZTGCZZ" {
+			c.Violate("abort-reply", "aborted binary COPY transcript "+obs.Reply, "want TGEZZ (one ErrorResponse, one ReadyForQuery, then the Sync's) followed by TGCZZ for the complete COPY sent afterwards", cs)
 			return
 		}
+		if obs.End2 != "eof" || len(obs.Rows2) != len(t.Rows) {
+			c.Violate("second-copy", "a complete COPY after an aborted one on the same connection does not yield its rows", fmt.Sprintf("second COPY: %d rows (want %d), end %q", len(obs.Rows2), len(t.Rows), obs.End2), cs)
+			return
+		}
+		for i, r := range obs.Rows2 {
+			if d := c14rowEq(t.OIDs, r, t.Rows[i]); d != "" {
+				c.Violate("second-copy", "rows of a COPY that follows an aborted one are wrong", fmt.Sprintf("row %d: %s", i, d), cs)
+				return
+			}
+		}
+		c.Count("copy_after_abort", 1)
 	}
 	for _, k := range cases {
 		if k.name == "stream ends mid-row" && len(k.s) == rowEnds[ri] {
